@@ -28,7 +28,7 @@ ASSUMPTIONS = ['MIME type of a response = the longest token "/" token prefix of 
                'no expectation is set for header blocks containing the extra str.splitlines() separators '
                '(VT FF FS GS RS NEL) or US / NBSP: there only model = code is checked',
                'URL, record id, MIME type and file name contain no space (the CDX delimiter)']
-UNPROVED = []
+UNPROVED = ['status_mime_full (Proofs/C07.lean): refuted on the region of the known finding cdx-mime-linesep; outside it the status/MIME parse is tied by the hdr stream and the oracle, not proved']
 
 PID = 'C07'
 
